@@ -168,6 +168,21 @@ Theorem C04_src_bwd_shift : forall cfg l r t e0 left, pos_rows l -> 0 <= left ->
   = lift_shift (bwd_shift cfg l r t e0 left).
 Proof. exact src_bwd_shift_eq. Qed.
 
+(* ---- source-text tie for the recursive pass (gen/SrcPass.v: ForwardScheduler.__forward_pass / BackwardScheduler.__backward_pass translated from schedule.py on every run;
+   Sched/SrcPassEquivF.v / SrcPassEquivB.v relates it to the model's pass for every input, Sched/SrcPassProps.v transports the theorems):
+   what follows is about the TRANSLATED SOURCE called once per root as calc does ([src_roots_fold]) after calc's pre-checks. ---- *)
+From PJ Require Import gen.SrcPass Sched.SrcPassRel Sched.SrcPassEquivF Sched.SrcPassEquivB Sched.SrcPassProps.
+
+Theorem C04_src_forward_pass : forall cfg w ds l cl, isolated_ok w = true -> no_future_ends w (now cfg) = true ->
+  src_roots_fold src_fwd_pass cfg w (roots w) = Ok (ds, l, cl) ->
+  WFin w -> cap_nonneg cfg -> cap_small cfg -> exts_last w -> c04_b true cfg w (obs_of w (src_sst (ds, l, cl))) = true.
+Proof. exact src_fwd_c04_oracle. Qed.
+
+Theorem C04_src_backward_pass : forall cfg w ds l cl, isolated_ok w = true ->
+  src_roots_fold src_bwd_pass cfg w (rev (roots w)) = Ok (ds, l, cl) ->
+  WFin w -> cap_nonneg cfg -> cap_small cfg -> exts_last w -> c04_b false cfg w (obs_of w (src_sst (ds, l, cl))) = true.
+Proof. exact src_bwd_c04_oracle. Qed.
+
 Print Assumptions C04_forward.
 Print Assumptions C04_backward.
 Print Assumptions C04_conserve_once.
@@ -184,3 +199,5 @@ Print Assumptions C04_example.
 Print Assumptions C04_cap_small_needed.
 Print Assumptions C04_src_fwd_shift.
 Print Assumptions C04_src_bwd_shift.
+Print Assumptions C04_src_forward_pass.
+Print Assumptions C04_src_backward_pass.
